@@ -827,6 +827,17 @@ namespace bloch::compiler {
                 throw BlochError(ErrorCategory::Semantic, line, column,
                                  "initialiser for '" + name + "' cannot be null");
             }
+            // 'null' is a class reference: it cannot be an element of a primitive array.
+            if (dynamic_cast<PrimitiveType*>(arr->elementType.get())) {
+                if (auto lit = dynamic_cast<ArrayLiteralExpression*>(initializer)) {
+                    for (auto& el : lit->elements) {
+                        if (el && inferTypeInfo(el.get()).value == ValueType::Null) {
+                            throw BlochError(ErrorCategory::Semantic, line, column,
+                                             "array '" + name + "' cannot hold null elements");
+                        }
+                    }
+                }
+            }
         }
 
         if (auto call = dynamic_cast<CallExpression*>(initializer)) {
